@@ -113,6 +113,7 @@ theorem rowSumU_normaliseRow (d : AList Sym (AList (List (UNT U)) Rat)) (s : Rat
   intro r _
   exact sum_map_div r.2 (fun a => a.2) s
 
+omit [DecidableEq U] in
 theorem rowSumU_normaliseU (tg : UTags U) :
     ∀ e ∈ (normaliseU tg).tags, ∃ e' ∈ tg.tags, e.1 = e'.1 ∧ (rowSumU e'.2 ≠ 0 → rowSumU e.2 = 1) := by
   intro e he
@@ -153,5 +154,207 @@ theorem countU_eq_length (G : UCFG U) (k : Nat) (nt : UNT U) :
       apply List.map_congr_left
       intro a _
       simp [ih, Function.comp_def]
+
+/-! ### V5 `UCFG.programs()` and its memo table -/
+
+/-- the counter does not change once the budget covers every derivation -/
+theorem countU_stable (G : UCFG U) (j : Nat) : ∀ (a : UNT U) (j' : Nat),
+    boundedU G j a = true → j ≤ j' → countU G j' a = countU G j a := by
+  induction j with
+  | zero => intro a j' hb; simp [boundedU] at hb
+  | succ j ih =>
+    intro a j' hb hle
+    obtain ⟨j'', rfl⟩ : ∃ j'', j' = j'' + 1 := ⟨j' - 1, by omega⟩
+    rw [boundedU] at hb
+    rw [countU, countU]
+    cases hl : AList.lookup a G.rules with
+    | none => rfl
+    | some rs =>
+      rw [hl] at hb
+      simp only [List.all_eq_true] at hb
+      simp only
+      congr 1
+      apply List.map_congr_left
+      intro r hr
+      congr 1
+      apply List.map_congr_left
+      intro args hargs
+      congr 1
+      apply List.map_congr_left
+      intro x hx
+      exact ih x j'' (hb r hr args hargs x hx) (by omega)
+
+theorem countU_bounded_eq (G : UCFG U) (j j' : Nat) (a : UNT U)
+    (h : boundedU G j a = true) (h' : boundedU G j' a = true) : countU G j a = countU G j' a := by
+  rcases Nat.le_total j j' with hle | hle
+  · exact (countU_stable G j a j' h hle).symm
+  · exact countU_stable G j' a j h' hle
+
+/-- every memo entry is the count of a bounded state -/
+def MemoOK (G : UCFG U) (memo : Memo U) : Prop :=
+  ∀ a c, AList.lookup a memo = some c → ∃ j, boundedU G j a = true ∧ c = countU G j a
+
+/-- the specification of one call of `__compute__`, on the states satisfying `P` -/
+def CallSpec (G : UCFG U) (cf : UNT U → Memo U → Option (Nat × Memo U)) (P : UNT U → Prop)
+    (f : UNT U → Nat) : Prop :=
+  ∀ a memo c memo', P a → MemoOK G memo → cf a memo = some (c, memo') → c = f a ∧ MemoOK G memo'
+
+theorem computeArgs_spec (G : UCFG U) (cf : UNT U → Memo U → Option (Nat × Memo U))
+    (P : UNT U → Prop) (f : UNT U → Nat) (hc : CallSpec G cf P f) :
+    ∀ (args : List (UNT U)) (loc : Nat) (memo : Memo U) (n : Nat) (memo' : Memo U),
+      (∀ a ∈ args, P a) → MemoOK G memo → computeArgs cf args loc memo = some (n, memo') →
+      n = loc * (args.map f).prod ∧ MemoOK G memo' := by
+  intro args
+  induction args with
+  | nil =>
+    intro loc memo n memo' _ hm h
+    simp only [computeArgs, Option.some.injEq, Prod.mk.injEq] at h
+    obtain ⟨rfl, rfl⟩ := h
+    exact ⟨by simp, hm⟩
+  | cons a as ih =>
+    intro loc memo n memo' hp hm h
+    rw [computeArgs] at h
+    cases hca : cf a memo with
+    | none => rw [hca] at h; simp at h
+    | some res =>
+      obtain ⟨c, memo1⟩ := res
+      rw [hca] at h
+      simp only at h
+      obtain ⟨rfl, hm1⟩ := hc a memo c memo1 (hp a (by simp)) hm hca
+      obtain ⟨rfl, hm2⟩ := ih (loc * f a) memo1 n memo' (fun x hx => hp x (by simp [hx])) hm1 h
+      exact ⟨by simp [Nat.mul_assoc], hm2⟩
+
+theorem computeRules_spec (G : UCFG U) (cf : UNT U → Memo U → Option (Nat × Memo U))
+    (P : UNT U → Prop) (f : UNT U → Nat) (hc : CallSpec G cf P f) :
+    ∀ (alts : List (List (UNT U))) (total : Nat) (memo : Memo U) (n : Nat) (memo' : Memo U),
+      (∀ args ∈ alts, ∀ a ∈ args, P a) → MemoOK G memo →
+      computeRules cf alts total memo = some (n, memo') →
+      n = total + (alts.map (fun args => (args.map f).prod)).sum ∧ MemoOK G memo' := by
+  intro alts
+  induction alts with
+  | nil =>
+    intro total memo n memo' _ hm h
+    simp only [computeRules, Option.some.injEq, Prod.mk.injEq] at h
+    obtain ⟨rfl, rfl⟩ := h
+    exact ⟨by simp, hm⟩
+  | cons args rest ih =>
+    intro total memo n memo' hp hm h
+    rw [computeRules] at h
+    cases hca : computeArgs cf args 1 memo with
+    | none => rw [hca] at h; simp at h
+    | some res =>
+      obtain ⟨loc, memo1⟩ := res
+      rw [hca] at h
+      simp only at h
+      obtain ⟨rfl, hm1⟩ := computeArgs_spec G cf P f hc args 1 memo loc memo1
+        (hp args (by simp)) hm hca
+      obtain ⟨rfl, hm2⟩ := ih _ memo1 n memo' (fun x hx => hp x (by simp [hx])) hm1 h
+      exact ⟨by simp [Nat.add_assoc], hm2⟩
+
+theorem nat_sum_map_flatMap {α β : Type} (g : α → List β) (h : β → Nat) (l : List α) :
+    ((l.flatMap g).map h).sum = (l.map (fun x => ((g x).map h).sum)).sum := by
+  induction l with
+  | nil => simp
+  | cons x xs ih =>
+    simp only [List.flatMap_cons, List.map_append, List.sum_append, List.map_cons, List.sum_cons, ih]
+
+/-- `__compute__` on a bounded state returns its number of derivations and keeps the memo
+    table correct -/
+theorem compute_spec (G : UCFG U) (fuel : Nat) : ∀ (j : Nat),
+    CallSpec G (compute G fuel) (fun a => boundedU G j a = true) (countU G j) := by
+  induction fuel with
+  | zero => intro j a memo c memo' _ _ h; simp [compute] at h
+  | succ fuel ih =>
+    intro j st memo c memo' hb hm h
+    rw [compute] at h
+    cases hl : AList.lookup st memo with
+    | some c0 =>
+      rw [hl] at h
+      simp only [Option.some.injEq, Prod.mk.injEq] at h
+      obtain ⟨rfl, rfl⟩ := h
+      obtain ⟨j0, hb0, rfl⟩ := hm st c0 hl
+      exact ⟨countU_bounded_eq G j0 j st hb0 hb, hm⟩
+    | none =>
+      rw [hl] at h
+      simp only at h
+      cases j with
+      | zero => simp [boundedU] at hb
+      | succ j =>
+        have hb' := hb
+        rw [boundedU] at hb'
+        cases hr : AList.lookup st G.rules with
+        | none => rw [hr] at hb'; simp at hb'
+        | some rs =>
+          rw [hr] at hb' h
+          simp only [List.all_eq_true] at hb'
+          simp only at h
+          cases hcr : computeRules (compute G fuel) (rs.flatMap (fun r => r.2)) 0 memo with
+          | none => rw [hcr] at h; simp at h
+          | some res =>
+            obtain ⟨total, memo1⟩ := res
+            rw [hcr] at h
+            simp only [Option.some.injEq, Prod.mk.injEq] at h
+            obtain ⟨rfl, rfl⟩ := h
+            obtain ⟨htot, hm1⟩ := computeRules_spec G (compute G fuel)
+              (fun a => boundedU G j a = true) (countU G j) (ih j)
+              (rs.flatMap (fun r => r.2)) 0 memo total memo1
+              (by
+                intro args hargs a ha
+                obtain ⟨r, hrm, hargs'⟩ := List.mem_flatMap.mp hargs
+                exact hb' r hrm args hargs' a ha) hm hcr
+            have hcount : total = countU G (j + 1) st := by
+              rw [htot, countU, hr, Nat.zero_add, nat_sum_map_flatMap]
+            refine ⟨hcount, ?_⟩
+            intro a c hlk
+            rw [AList.lookup_insert] at hlk
+            by_cases hast : a = st
+            · rw [if_pos hast] at hlk
+              cases hlk
+              exact ⟨j + 1, hast ▸ hb, hast ▸ hcount⟩
+            · rw [if_neg hast] at hlk
+              exact hm1 a c hlk
+
+theorem programsFrom_spec (G : UCFG U) (fuel k : Nat) :
+    ∀ (ss : List (UNT U)) (total : Nat) (memo : Memo U) (n : Nat),
+      (∀ s ∈ ss, boundedU G k s = true) → MemoOK G memo →
+      programsFrom G fuel ss total memo = some n →
+      n = total + (ss.map (fun s => countU G k s)).sum := by
+  intro ss
+  induction ss with
+  | nil =>
+    intro total memo n _ _ h
+    simp only [programsFrom, Option.some.injEq] at h
+    simp [h]
+  | cons s ss ih =>
+    intro total memo n hb hm h
+    rw [programsFrom] at h
+    cases hc : compute G fuel s memo with
+    | none => rw [hc] at h; simp at h
+    | some res =>
+      obtain ⟨c, memo1⟩ := res
+      rw [hc] at h
+      simp only at h
+      obtain ⟨rfl, hm1⟩ := compute_spec G fuel k s memo c memo1 (hb s (by simp)) hm hc
+      rw [ih _ memo1 n (fun x hx => hb x (by simp [hx])) hm1 h]
+      simp [Nat.add_assoc]
+
+/-- V5: `UCFG.programs()`: when it returns `n`, and every start symbol is `boundedU` within
+    `k`, `n` is the number of derivations from the start symbols -/
+theorem programs_eq_countU (G : UCFG U) (fuel n k : Nat) (h : programs G fuel = some n)
+    (hb : ∀ s ∈ G.starts, boundedU G k s = true) :
+    n = (G.starts.map (fun s => countU G k s)).sum := by
+  have hm : MemoOK G ([] : Memo U) := by intro a c hl; simp at hl
+  have := programsFrom_spec G fuel k G.starts 0 [] n hb hm h
+  simpa using this
+
+/-- … hence the number of entries of the enumeration `langU` from the start symbols -/
+theorem programs_eq_length (G : UCFG U) (fuel n k : Nat) (h : programs G fuel = some n)
+    (hb : ∀ s ∈ G.starts, boundedU G k s = true) :
+    n = (G.starts.map (fun s => (langU G k s).length)).sum := by
+  rw [programs_eq_countU G fuel n k h hb]
+  congr 1
+  apply List.map_congr_left
+  intro s _
+  exact countU_eq_length G k s
 
 end PS.U.Ops
